@@ -500,6 +500,13 @@ def main(tier, seed):
                           dict(kind="measures", function=fn, labels=l2, preds=p2, array_dtype=__import__("numpy").dtype(label_dtype(l2, p2)).name), key="general." + fn)
     import drive_streams
     nviol += drive_streams.reused_label_buffers(rep, rng, tier)
+    # float level (Props/C20_rounding.v, C20_binary64.v): the binary64 value against the exact rational, with the proved bound
+    import c20_rounding
+    rst, rvs = c20_rounding.run(rep, 300 if tier == "quick" else 6000, seed)
+    rep.corr["accuracy_rounding_bound"] = rst
+    for v in rvs[:2]:
+        nviol += 1
+        rep.violation("opf_accuracy at binary64 against Props/C20_binary64.v: " + v["msg"], dict(kind="measures", function="opf_accuracy", labels=list(map(int, v["labels"])), preds=list(map(int, v["preds"]))), key="general.opf_accuracy")
     rep.extra["oracle_violations"] = nviol
 
     # ---- normalize
